@@ -609,20 +609,77 @@ def rule_cache(chk):
         any(isinstance(l, ast.For) and compact(l.iter) == 'range(n_threads)' for l in ast.walk(cu))
     chk.decide(ok, 'results-not-stale', 'cache:thread-buffers-reset', node=cu, file=NB, func='NeighborCache.update',
                detail_bad='per-thread neighbour buffers are not emptied on update', detail_ok='every thread buffer c_reset()')
+    # a cache fill: append into the calling thread's own buffer; remember (thread, length before, length after) for this particle
     fnb = M.find_func(nc, '_find_neighbors')
-    src = compact(fnb)
-    ok = "thread_id:'int'=threadid()" in src and 'self._nnps.find_nearest_neighbors(d_idx,self._neighbors[thread_id])' in src and \
-        'self._start_stop.data[d_idx*2]=self._neighbors[thread_id].length' in src and 'self._start_stop.data[d_idx*2+1]=self._neighbors[thread_id].length' in src \
-        and 'self._cached.data[d_idx]=1' in src and 'self._pid_to_tid.data[d_idx]=thread_id' in src
+    did = fnb.args.args[1].arg
+    q = [c for c in M.calls(fnb) if (M.call_name(c) or '').endswith('.find_nearest_neighbors')]
+    ok = len(q) == 1 and len(q[0].args) == 2 and compact(q[0].args[0]) == did
+    why = 'one query for the particle'
+    if ok:
+        buf = q[0].args[1]
+        tv = compact(buf.slice) if isinstance(buf, ast.Subscript) else None
+        tdef = value_of(fnb, tv) if tv else None
+        ok = tdef is not None and M.call_name(tdef) == 'threadid'
+        why = 'buffer selected by threadid()'
+        st = stores_to(fnb, 'self._start_stop.data')
+        first = [x for x in st if same(x[0], '2*%s' % did)]
+        second = [x for x in st if same(x[0], '2*%s+1' % did)]
+        blen = compact(buf) + '.length'
+        if ok:
+            ok = len(st) == 2 and len(first) == 1 and len(second) == 1 and compact(first[0][1]) == blen and compact(second[0][1]) == blen and \
+                first[0][2].lineno < q[0].lineno < second[0][2].lineno
+            why = 'start = buffer length before the query at [2*i], stop = length after it at [2*i+1]'
+        if ok:
+            cz = [x for x in stores_to(fnb, 'self._cached.data') if compact(x[0]) == did]
+            pt = [x for x in stores_to(fnb, 'self._pid_to_tid.data') if compact(x[0]) == did]
+            ok = len(cz) == 1 and isinstance(cz[0][1], ast.Constant) and cz[0][1].value == 1 and cz[0][2].lineno > q[0].lineno and len(pt) == 1 and compact(pt[0][1]) == tv
+            why = 'cached flag set after the query; thread id recorded'
     chk.decide(ok, 'results-not-stale', 'cache:fill-uses-own-thread-buffer', node=fnb, file=NB, func='NeighborCache._find_neighbors',
-               detail_bad='a cache fill does not append into the calling thread\'s own buffer and record (thread, start, stop) for d_idx', detail_ok='own buffer, start/stop recorded')
+               detail_bad='a cache fill does not append into the calling thread\'s own buffer and record (thread, start, stop) for the particle [failed: %s]' % why,
+               detail_ok='own buffer, start/stop recorded around the query')
     gr = M.find_func(nc, 'get_neighbors_raw')
-    src = compact(gr)
-    ok = 'ifself._cached.data[d_idx]==0:self._find_neighbors(d_idx)' in src.replace('\n', '') and \
-        'nbrs.c_set_view(__addr__(self._neighbors[tid].data[start]),end-start)' in src and 'start=self._start_stop.data[2*d_idx]' in src and \
-        'end=self._start_stop.data[2*d_idx+1]' in src and 'tid=self._pid_to_tid.data[d_idx]' in src
+    did = gr.args.args[1].arg
+    out = gr.args.args[2].arg
+    miss = [i for i in gr.body if isinstance(i, ast.If) and same(i.test, 'self._cached.data[%s]==0' % did) and
+            any(M.call_name(c) == 'self._find_neighbors' and [compact(x) for x in c.args] == [did] for c in M.calls(i))]
+    view = [c for c in M.calls(gr) if M.call_name(c) == out + '.c_set_view']
+    ok = len(miss) == 1 and len(view) == 1 and miss[0].lineno < view[0].lineno
+    if ok:
+        ptr, n = view[0].args
+        el = ptr.args[0] if isinstance(ptr, ast.Call) and M.call_name(ptr) == '__addr__' else None
+        ok = isinstance(el, ast.Subscript) and compact(el.value).endswith('.data')
+        if ok:
+            s_e = resolve(gr, el.slice)
+            bufx = el.value.value
+            t_e = resolve(gr, bufx.slice) if isinstance(bufx, ast.Subscript) else None
+            n_e = n
+            ok = same(s_e, 'self._start_stop.data[2*%s]' % did) and t_e is not None and same(t_e, 'self._pid_to_tid.data[%s]' % did) and compact(bufx.value) == 'self._neighbors'
+            if ok and isinstance(n_e, ast.BinOp) and isinstance(n_e.op, ast.Sub):
+                ok = same(resolve(gr, n_e.left), 'self._start_stop.data[2*%s+1]' % did) and same(resolve(gr, n_e.right), 'self._start_stop.data[2*%s]' % did)
+            else:
+                ok = False
     chk.decide(ok, 'results-not-stale', 'cache:lookup-returns-own-slice', node=gr, file=NB, func='NeighborCache.get_neighbors_raw',
-               detail_bad='cached lookup does not fill on miss and return exactly [start, stop) of the recording thread\'s buffer', detail_ok='fill on miss; view [start, stop)')
+               detail_bad='cached lookup does not fill on miss and return exactly [start, stop) of the recording thread\'s buffer', detail_ok='fill on miss; view [start, stop) of buffer[tid]')
+
+
+def value_of(fn, name):
+    """the single value assigned to a local name in fn (None when there is none or several)"""
+    vs = [a.value for a in ast.walk(fn) if isinstance(a, (ast.Assign, ast.AnnAssign)) and a.value is not None and
+          compact(a.target if isinstance(a, ast.AnnAssign) else a.targets[0]) == name]
+    return vs[0] if len(vs) == 1 else None
+
+
+def resolve(fn, e):
+    """a local name replaced by the single value assigned to it"""
+    if isinstance(e, ast.Name):
+        v = value_of(fn, e.id)
+        return v if v is not None else e
+    return e
+
+
+def stores_to(fn, base):
+    """(index, value, statement) for every `base[index] = value` in fn"""
+    return [(a.targets[0].slice, a.value, a) for a in ast.walk(fn) if isinstance(a, ast.Assign) and isinstance(a.targets[0], ast.Subscript) and compact(a.targets[0].value) == base]
 
 
 def rule_duplicates(chk):
@@ -642,27 +699,53 @@ def rule_duplicates(chk):
                'context-wiring', 'uncached-entry-sets-context', node=f, file=NB, func='NNPSBase.get_nearest_particles_no_cache',
                detail_bad='the query runs without set_context(src_index, dst_index) first', detail_ok='set_context(src_index, dst_index) dominates the query')
     f2 = M.find_func(nn, 'get_nearest_neighbors')
-    src = compact(f2)
-    ok = 'ifself.use_cache:self.current_cache.get_neighbors_raw(d_idx,nbrs)' in src.replace('\n', '') and 'nbrs.c_reset()' in src and \
-        src.index('nbrs.c_reset()') < src.index('self.find_nearest_neighbors(d_idx,nbrs)')
+    g2 = C.build_cfg(f2)
+    did, out = f2.args.args[1].arg, f2.args.args[2].arg
+    qn = [n.id for n in g2.nodes if n.ast is not None and isinstance(n.ast, ast.Expr) and M.call_name(n.ast.value) == 'self.find_nearest_neighbors']
+    rn = [n.id for n in g2.nodes if n.ast is not None and isinstance(n.ast, ast.Expr) and M.call_name(n.ast.value) in (out + '.c_reset', out + '.reset')]
+    cached = [c for c in M.calls(f2) if (M.call_name(c) or '').endswith('.get_neighbors_raw')]
+    gi = M.enclosing(cached[0], (ast.If,)) if cached else None
+    ok = bool(qn) and bool(rn) and g2.must_pass(g2.entry, qn[0], rn) and [compact(x) for x in g2.nodes[qn[0]].ast.value.args] == [did, out] and \
+        len(cached) == 1 and [compact(x) for x in cached[0].args] == [did, out] and gi is not None and same(gi.test, 'self.use_cache') and \
+        compact(cached[0].func.value) == 'self.current_cache'
     chk.decide(ok, 'no-duplicates', 'evaluator-entry-resets-output', node=f2, file=NB, func='NNPS.get_nearest_neighbors',
-               detail_bad='the evaluator entry point does not reset the output before an uncached query', detail_ok='c_reset() then query; cached path returns a view')
+               detail_bad='the evaluator entry point does not reset the output before an uncached query (or the cached path is not current_cache.get_neighbors_raw(d_idx, nbrs) under use_cache)',
+               detail_ok='c_reset() dominates the query; cached path returns a view')
     f3 = M.find_func(base, 'get_nearest_particles')
-    g3 = C.build_cfg(f3)
-    src = compact(f3)
-    ok = 'ifself.src_index!=src_indexorself.dst_index!=dst_index:self.set_context(src_index,dst_index)' in src.replace('\n', '') and \
-        'returnself.cache[idx].get_neighbors(src_index,d_idx,nbrs)' in src and "idx:'int'=dst_index*self.narrays+src_index" in src
+    idxv = value_of(f3, 'idx')
+    rets = [r for r in ast.walk(f3) if isinstance(r, ast.Return) and isinstance(r.value, ast.Call) and isinstance(r.value.func, ast.Attribute) and r.value.func.attr == 'get_neighbors']
+    ok = len(rets) == 1
+    if ok:
+        c = rets[0].value
+        tbl = c.func.value
+        ok = isinstance(tbl, ast.Subscript) and compact(tbl.value) == 'self.cache' and same(resolve(f3, tbl.slice), 'dst_index*self.narrays+src_index') and \
+            [compact(x) for x in c.args] == ['src_index', 'd_idx', 'nbrs']
+        sw = [i for i in ast.walk(f3) if isinstance(i, ast.If) and same(i.test, 'self.src_index != src_index or self.dst_index != dst_index')]
+        ok = ok and len(sw) == 1 and any(M.call_name(x) == 'self.set_context' and [compact(y) for y in x.args] == ['src_index', 'dst_index'] for x in M.calls(sw[0])) and \
+            sw[0].lineno < rets[0].lineno
     chk.decide(ok, 'context-wiring', 'cached-entry', node=f3, file=NB, func='NNPSBase.get_nearest_particles',
                detail_bad='the cached entry does not select cache[dst*narrays + src] after ensuring the context is (src, dst)', detail_ok='cache[dst*narrays+src], context switched when the pair changes')
     init = M.find_func(nn, '__init__')
-    src = compact(init)
-    ok = 'ford_idxinrange(len(particles)):fors_idxinrange(len(particles)):_cache.append(NeighborCache(self,d_idx,s_idx))' in src.replace('\n', '')
+    M.set_parents(init)
+    apps = [c for c in M.calls(init) if isinstance(c.func, ast.Attribute) and c.func.attr == 'append' and c.args and M.call_name(c.args[0]) == 'NeighborCache']
+    ok = len(apps) == 1
+    if ok:
+        mk = apps[0].args[0]
+        inner = M.enclosing(apps[0], (ast.For,))
+        outer = M.enclosing(inner, (ast.For,)) if inner is not None else None
+        np_ = 'range(len(particles))'
+        ok = inner is not None and outer is not None and compact(inner.iter) in (np_, 'range(self.narrays)') and compact(outer.iter) in (np_, 'range(self.narrays)') and \
+            len(mk.args) == 3 and compact(mk.args[1]) == compact(outer.target) and compact(mk.args[2]) == compact(inner.target) and \
+            not any(isinstance(x, (ast.If, ast.Continue, ast.Break)) for x in ast.walk(outer))
+        lst = compact(apps[0].func.value)
+        ok = ok and any(isinstance(a, ast.Assign) and compact(a.targets[0]) == 'self.cache' and compact(a.value) == lst for a in ast.walk(init))
     chk.decide(ok, 'context-wiring', 'cache-table-layout', node=init, file=NB, func='NNPS.__init__',
-               detail_bad='caches are not created in (destination-major, source-minor) order matching idx = dst*narrays + src', detail_ok='dst-major order')
+               detail_bad='caches are not created for every (destination, source) pair in destination-major order, which idx = dst*narrays + src relies on', detail_ok='dst-major order')
     sc0 = M.find_func(base, 'set_context')
-    src = compact(sc0)
-    ok = 'self.src_index=src_index' in src and 'self.dst_index=dst_index' in src and 'self.current_cache=self.cache[idx]' in src and \
-        "idx:'int'=dst_index*self.narrays+src_index" in src
+    st = dict((compact(a.targets[0]), a.value) for a in ast.walk(sc0) if isinstance(a, ast.Assign))
+    cc = st.get('self.current_cache')
+    ok = st.get('self.src_index') is not None and st.get('self.dst_index') is not None and compact(st.get('self.src_index')) == 'src_index' and compact(st.get('self.dst_index')) == 'dst_index' and isinstance(cc, ast.Subscript) and \
+        compact(cc.value) == 'self.cache' and same(resolve(sc0, cc.slice), 'dst_index*self.narrays+src_index')
     chk.decide(ok, 'context-wiring', 'base-set_context', node=sc0, file=NB, func='NNPSBase.set_context', detail_bad='base context bookkeeping changed',
                detail_ok='records the pair and selects cache[dst*narrays+src]')
 
